@@ -30,6 +30,7 @@ def bounds(tier):
 def items(tier):
     its = c01.expr_items(tier)
     its += models.model_items(tier, ID, variants=True)
+    its += models.option_items(ID)
     return its
 
 
@@ -80,6 +81,8 @@ def run_item(item):
             c01.run_pack(exprs, item["full"], res, c_backend)
         finally:
             c01.ID = saved
+    elif item["kind"] == "options":
+        models.run_option_item(item, res, ID, ("c",))
     else:
         models.run_model_item(item, res, ID, backends=("c",), functions=FUNCS, opts={"scheme": list(models.SCHEMES), "stiff_states": None})
         check_inits(item, res)
